@@ -38,12 +38,15 @@ ENCODED = ["twisted.web.http:_parseRequestLine", "twisted.web._abnf:_istoken", "
 BOUNDS = {"quick": {"m": 4, "tg": 4, "vs": 4, "nm": 2, "di": 3, "bd": 2},
           "thorough": {"m": 6, "tg": 5, "vs": 5, "nm": 3, "di": 4, "bd": 2}}
 B = {}
-BOUNDS_TEXT = ("kernels: method <= m, target <= tg symbolic bytes, both separators symbolic, version = "
-               "'HTTP/' + <= vs symbolic bytes (or one of three concrete spellings); header names <= nm bytes; "
-               "_decint arguments <= di bytes.  Channel: 16 framing-header combinations x symbolic 2-byte "
-               "Content-Length value (first digit 0-2) / coding byte / 2-byte chunk size (first digit 0-1) / "
-               "bd body bytes, body region of 21 bytes holding a complete smuggled request, then a second "
-               "request; header-name bytes (2) and a header-value byte through the channel")
+BOUNDS_TEXT = ("kernels: request line with a fully symbolic method (<= m bytes), target (<= tg bytes), version "
+               "(<= vs bytes after 'HTTP/' or alone), and one symbolic byte in method / SP / target / SP / version "
+               "at the same time; header names <= nm bytes; _decint arguments <= di bytes (m, tg, vs = 4, nm = 2, "
+               "di = 3 quick; 6, 5, 5, 3, 4 thorough).  Channel: 16 framing-header combinations with a symbolic "
+               "2-byte Content-Length value (first digit 0-2, every other byte value) / coding byte / 2-byte chunk "
+               "size (first digit 0-2) / obs-fold byte / byte before the colon / 2 body bytes; the body region "
+               "holds a complete smuggled request; a second pipelined request follows; 2 symbolic header-name "
+               "bytes and a header-value byte through the channel; one delivery, plus the stream cut right after "
+               "the first request")
 OUTSIDE = ["the h11 differential of the property text (symbolic execution through h11 is out of reach): the "
            "oracle is the reference framer in this file",
            "requests longer than the shapes; bodies longer than 21 bytes; limits (16384-byte lines / header "
